@@ -44,7 +44,7 @@ PROPS = {
     "C05": {
         "level": "exploration",
         "stages": [native("main", timeout=300, timeout_thorough=1500),
-                   native("main-dev", engine="dev", rv_stage="main", tiers=["thorough"], timeout_thorough=1500)],
+                   native("main-dev", engine="dev", rv_stage="main", tiers=["thorough"], timeout_thorough=1500), native("proxy")],
     },
     "C06": {
         "level": "fault_enumeration",
